@@ -292,6 +292,7 @@ type pathResult struct {
 func (w *World) runPath(fn *ssa.Function, sol *Solver, prefix []Decision, opt Options) (pr pathResult) {
 	tt := NewTermTab()
 	sol.ResetPath()
+	sol.SetTimeout(opt.TimeoutMS)
 	sol.Push()
 	lim := Limits{MaxSteps: opt.MaxSteps, MaxDecisions: opt.MaxDecisions, MaxViolation: opt.MaxViolations}
 	p := NewPath(tt, sol, prefix, lim)
